@@ -3,6 +3,7 @@
 From Coq Require Import ZArith QArith List Bool Lia.
 Import ListNotations.
 From Inf Require Import model.RepexM proofs.RepexP proofs.EnginesP.
+From Inf Require Import proofs.EngineRunP.
 Open Scope nat_scope.
 
 (* The invariant holds in every state reachable by ANY sequence of operations the model
@@ -77,6 +78,36 @@ Print Assumptions C03_engine_available.
 Definition ex_init : fstate :=
   mkFS (mkR [[1;0;0;0]; [0;1;0;0]; [0;1;1;0]; [0;0;0;0]]%Z [0;1;2;0] [false;false;false;true] [] 3)
        [(0, [0;0;0;0]%Q); (1, [0;0;0;0]%Q); (2, [0;0;0;0]%Q)] [] 0.
+
+(* ------------------------------------------------------------------ engine instances at run level
+   (proofs/EngineRunP.v).  A run is any list of calls (worker pin, requested engine types) of
+   assign_engines; [held log p] = the instances the last call of worker p obtained. *)
+(* no two workers ever hold the same instance: any start table, any pins, any request lists (they
+   may change between calls) *)
+Theorem C03_no_shared_engine_instance : forall o calls o' log,
+  run_assign o calls = (o', log) ->
+  forall p q e i, In (e, Some i) (held log p) -> In (e, Some i) (held log q) -> p = q.
+Proof. exact run_no_shared_instance. Qed.
+Print Assumptions C03_no_shared_engine_instance.
+
+(* with at most as many workers as instances of every type, no call ever fails to find a free one *)
+Theorem C03_engine_always_available : forall sh calls,
+  calls_wf (map fst sh) calls ->
+  Forall (fun en => length (nodup Nat.eq_dec (map fst calls)) <= snd en) sh ->
+  forall pin out e x, In (pin, out) (snd (run_assign (init_occ sh) calls)) -> In (e, x) out -> x <> None.
+Proof. exact run_assign_available. Qed.
+Print Assumptions C03_engine_always_available.
+
+(* the variant that caches a worker's instances and requests only new types (while assign_engines
+   still frees everything the worker holds) lets two workers share an instance *)
+Theorem C03_cached_engine_index_refuted :
+  exists sh calls p q e i,
+    p <> q /\
+    In (e, Some i) (held (snd (run_assign_cached (init_occ sh) [] calls)) p) /\
+    In (e, Some i) (held (snd (run_assign_cached (init_occ sh) [] calls)) q) /\
+    holder (fst (run_assign_cached (init_occ sh) [] calls)) e i <> Some p.
+Proof. exact cached_variant_shares. Qed.
+Print Assumptions C03_cached_engine_index_refuted.
 
 Example C03_example_init : InvF ex_init.
 Proof.
